@@ -919,6 +919,9 @@ def mon_C13(script, outs):
     lo = hi = 0.0
     cur_in = None
     run = []    # outputs while the input is constant and coefficients are constant
+    rho_hist = 0.0   # coarsest resolution among the coefficient sets used so far (the hull theorem's kappa is
+    #                  the slowest speed used in the history: an offset left by a slow pole is still there
+    #                  right after a switch to a fast one)
     for i, t, co, y in glide_rows(script, outs):
         a1 = co[0]
         if t[0] == "proc":
@@ -926,8 +929,10 @@ def mon_C13(script, outs):
             lo, hi = min(lo, x), max(hi, x)
             M = max(abs(lo), abs(hi))
             r = rho(a1) * M
-            if not (lo - r <= y <= hi + r):
-                fails.append((i, "output %r leaves the range [%r, %r] of the inputs seen so far (resolution %r)" % (y, lo, hi, r)))
+            rho_hist = max(rho_hist, rho(a1))
+            r_hist = rho_hist * M
+            if not (lo - r_hist <= y <= hi + r_hist):
+                fails.append((i, "output %r leaves the range [%r, %r] of the inputs seen so far (resolution %r)" % (y, lo, hi, r_hist)))
                 break
             if cur_in is not None and x == cur_in[0] and (cur_in[1] is None or co == cur_in[1]):
                 run.append(y)
@@ -1113,6 +1118,9 @@ def mon_C16(script, outs):
             if pr:
                 win = runs[-cap:][:cap - discard]
                 n = len(win)
+                if n == 0:
+                    fails.append((i, "a press is reported although no in-range sample of the current run contributes"))
+                    break
                 tau = cap * 2.0 ** -24 + 2.0 ** -22
 
                 def corr(p):
@@ -1188,6 +1196,36 @@ def mon_C17(script, outs):
     return fails
 
 
+def mon_C20_conv(script, outs):
+    """the public conversions of the clamping newtypes (family `conversions`): a time maps into [0.001, 20] (NaN to
+    the lower bound), a sustain level into [0, 1] (NaN to 0), a note number above 11 to 11"""
+    fails = []
+    if script.meta.get("family") != "conversions":
+        return fails
+    tmin, tmax = f32(0.001), f32(20.0)
+    for i, op in enumerate(script.ops):
+        if i >= len(outs):
+            break
+        t = op.split()
+        o = outs[i]
+        if t[0] in ("tp", "sl"):
+            x = unhx(t[1])
+            lo, hi = (tmin, tmax) if t[0] == "tp" else (0.0, 1.0)
+            exp = lo if isnan(x) else min(max(x, lo), hi)
+            got = float("nan") if o == "nan" else unhx(o)
+            if isnan(got) or got != exp:
+                fails.append((i, "%s(%r) converts to %r, the documented range means %r"
+                              % ("TimePeriod" if t[0] == "tp" else "SustainLevel", x, got, exp)))
+                break
+        elif t[0] == "note":
+            n = int(t[1])
+            exp = str(min(n, 11))
+            if o.split() != [exp, exp]:
+                fails.append((i, "Note %d converts to %s, expected %s" % (n, o, exp)))
+                break
+    return fails
+
+
 MONITORS = {
     "C01": [mon_C01],
     "C02": [mon_C02],
@@ -1208,5 +1246,5 @@ MONITORS = {
     "C17": [mon_C17],
     "C18": [midi_monitor("C18"), mon_C18_extra],
     "C19": [mon_C19],
-    "C20": [],
+    "C20": [mon_C20_conv],
 }
